@@ -278,8 +278,14 @@ func (c *vCaseCtx) vJudgeFS(got []FileData, fst map[string][]string) {
 	for _, e := range entries {
 		m.Got = append(m.Got, e.Name)
 	}
+	lookupNote := vFSLookups(entries, d)
 	if strings.Join(m.Got, "\x00") != strings.Join(d, "\x00") {
-		m.Kind = "fs-table-differs"
+		m.Kind, m.Note = "fs-table-differs", lookupNote
+		c.report(m)
+		return
+	}
+	if lookupNote != "" {
+		m.Kind, m.Note = "fs-lookup-fails", lookupNote
 		c.report(m)
 		return
 	}
@@ -296,6 +302,66 @@ func (c *vCaseCtx) vJudgeFS(got []FileData, fst map[string][]string) {
 			return
 		}
 	}
+}
+
+// the search package embed performs on the table (embed.FS.lookup / readDir): entries are found by binary search
+// on (directory, element); want = the table the law prescribes (directories carry a trailing slash)
+func vFSSplit(name string) (dir, elem string) {
+	name = strings.TrimSuffix(name, "/")
+	if i := strings.LastIndexByte(name, '/'); i >= 0 {
+		return name[:i], name[i+1:]
+	}
+	return ".", name
+}
+
+func vFSLookups(tab []FileData, want []string) string {
+	lookup := func(name string) int {
+		dir, elem := vFSSplit(name)
+		i := sort.Search(len(tab), func(i int) bool {
+			idir, ielem := vFSSplit(tab[i].Name)
+			return idir > dir || idir == dir && ielem >= elem
+		})
+		if i < len(tab) && strings.TrimSuffix(tab[i].Name, "/") == name {
+			return i
+		}
+		return -1
+	}
+	readDir := func(dir string) []string {
+		i := sort.Search(len(tab), func(i int) bool { idir, _ := vFSSplit(tab[i].Name); return idir >= dir })
+		j := sort.Search(len(tab), func(j int) bool { jdir, _ := vFSSplit(tab[j].Name); return jdir > dir })
+		var l []string
+		for ; i < j; i++ {
+			l = append(l, tab[i].Name)
+		}
+		return l
+	}
+	kids := map[string][]string{}
+	for _, w := range want {
+		name := strings.TrimSuffix(w, "/")
+		if lookup(name) < 0 {
+			return "embed.FS lookup of " + name + " fails in the table " + fmt.Sprint(vNames(tab))
+		}
+		dir, _ := vFSSplit(w)
+		kids[dir] = append(kids[dir], w)
+	}
+	for dir, ks := range kids {
+		got := readDir(dir)
+		sort.Strings(ks)
+		g := append([]string(nil), got...)
+		sort.Strings(g)
+		if strings.Join(g, "\x00") != strings.Join(ks, "\x00") {
+			return "embed.FS ReadDir(" + dir + ") lists " + fmt.Sprint(got) + ", want " + fmt.Sprint(ks)
+		}
+	}
+	return ""
+}
+
+func vNames(tab []FileData) []string {
+	n := make([]string, len(tab))
+	for i, e := range tab {
+		n[i] = e.Name
+	}
+	return n
 }
 
 func vResolve(dir string, pats []string) (got []FileData, err error, pan string) {
